@@ -1,5 +1,6 @@
 # C08 - option state persists faithfully across the build-directory lifecycle.
-# Explicit-state BFS over command histories on ONE generated project.  A transition runs a real meson CLI command
+# Explicit-state BFS over command histories on ONE generated project (a top-level project and a subproject, each with
+# an option file that the `edit ...` commands of the alphabet rewrite).  A transition runs a real meson CLI command
 # (fork of a process with mesonbuild pre-imported, mesonmain.run) on a real build directory restored from the
 # in-memory snapshot of its source state; every reached state is closed by an observer step (plain
 # `setup --reconfigure` on a copy, whose build files message() every tracked get_option()) that never becomes part of
@@ -142,7 +143,7 @@ ALPHABET = [
     C('configure -Ds=s1', 'configure', [('s', 's1')]),
     C('configure -Ds=s2', 'configure', [('s', 's2')], tiers='t'),
     C('configure -Ds=', 'configure', [('s', '')]),                 # the empty string is a value like any other
-    C('configure -Dc=b', 'configure', [('c', 'b')], tiers='t'),    # (quick: 'c' with `edit ab` / `edit bc` covers both clauses)
+    C('configure -Dc=b', 'configure', [('c', 'b')]),               # (after `edit bc`: a -D equal to the current, unrecorded value)
     C('configure -Dc=c', 'configure', [('c', 'c')]),
     C('configure -Dr=r1', 'configure', [('r', 'r1')]),
     C('configure -Di=9', 'configure', [('i', '9')]),
@@ -188,12 +189,17 @@ ALPHABET = [
     C('edit sub ab', 'edit', subvariant='ab'),
     C('edit sub ca', 'edit', subvariant='ca'),
     C('edit sub add', 'edit', subvariant='add', tiers='t'),
-    C('edit sub remove', 'edit', subvariant='remove'),
+    C('edit sub remove', 'edit', subvariant='remove', tiers='t'),
     C('edit sub newdef', 'edit', subvariant='newdef', tiers='t'),
     C('edit sub imax', 'edit', subvariant='imax', tiers='t'),
     C('edit sub imin', 'edit', subvariant='imin', tiers='t'),
     C('edit sub nofile', 'edit', subvariant='nofile'),
     C('edit sub base', 'edit', subvariant='base'),
+    # an edit that is first seen by `meson configure` (which re-reads a changed option file itself) instead of a reconfigure;
+    # the -D is for an option the edit does not touch
+    C('edit ab + configure -Dr=r1', 'editconf', [('r', 'r1')], variant='ab', tiers='t'),
+    C('edit sub ab + configure -Dr=r1', 'editconf', [('r', 'r1')], subvariant='ab', tiers='t'),
+    C('edit sub ca + configure -Dr=r1', 'editconf', [('r', 'r1')], subvariant='ca', tiers='t'),
     C('fail configure invalid', 'configure', FAILD + [('c', 'zzz')], inject='invalid-value'),
     C('fail reconfigure boom', 'reconfigure', FAILD + [('boom', 'true')], inject='error()'),
     C('fail reconfigure late', 'reconfigure', FAILD + [('late', 'true')], inject='postconf-script'),
@@ -213,7 +219,7 @@ def argv_of(cmd):
     k = cmd['kind']
     if k == 'setup':
         return ['setup', 'b', 'src'] + d
-    if k == 'configure':
+    if k == 'configure' or k == 'editconf':
         return ['configure', 'b'] + d
     if k == 'reconfigure' or k == 'edit':
         return ['setup', '--reconfigure', 'b', 'src'] + d
@@ -375,6 +381,14 @@ def model_step(m, cmd):
         if _fails_in_build_files(m2):
             return 'fail', m
         return 'ok', m2
+    if kind == 'editconf':
+        # the edited option file is noticed by `meson configure` (it compares the recorded hash of each option file)
+        if cmd['variant']:
+            m2['file'] = cmd['variant']
+        if cmd['subvariant']:
+            m2['subfile'] = cmd['subvariant']
+        _reread_option_file(m2)
+        kind = 'configure'
     if kind in ('setup', 'configure', 'reconfigure'):
         # setup on an existing build directory: "options are updated with their new value given on the command line
         # ... This has the same behaviour as `meson configure <builddir> -Dopt=value`" (Commands.md)
@@ -619,7 +633,7 @@ def exec_step(cmd, file_variant):
     """Run one command of the alphabet in WORK (already holding the source state).  Returns the raw outcome; the
     build directory afterwards is the successor state (not yet observed).  file_variant = (top, sub) variants on disk."""
     new_variant = tuple(file_variant)
-    if cmd['kind'] == 'edit':
+    if cmd['kind'] in ('edit', 'editconf'):
         if cmd['inject']:
             write_source(file_variant, broken='sub' if cmd['inject'].startswith('sub-') else 'top')
         else:
@@ -688,12 +702,12 @@ def _fold_history(hist):
     own = {k: SUB_DECL[k][1] for k in SUB_YIELD}     # last value given to sub:k itself (or its private default)
     for n in hist:
         c = CMD[n]
-        if c['kind'] == 'edit' and c['variant'] and not c['inject']:
+        if c['kind'] in ('edit', 'editconf') and c['variant'] and not c['inject']:
             for k, v in VARIANTS[c['variant']].items():
                 if k in VARIANTS[variant] and VARIANTS[variant][k][2] != v[2]:
                     choices_changed.add(k)
             variant = c['variant']
-        if c['kind'] == 'edit' and c['subvariant'] and not c['inject']:
+        if c['kind'] in ('edit', 'editconf') and c['subvariant'] and not c['inject']:
             for k, v in sub_decl(c['subvariant']).items():
                 if k in sub_decl(subvariant) and sub_decl(subvariant)[k][2] != v[2]:
                     sub_choices_changed.add(k)
@@ -744,7 +758,7 @@ def judge(m, prev, cmd, res, hist, taint=()):
     if res['rc'] != 0:
         # "a configure or reconfigure that fails leaves every persisted value exactly as it was"
         moved = []
-        src_changed = cmd['kind'] == 'edit' and not cmd['inject']               # a different source tree is on disk now
+        src_changed = cmd['kind'] in ('edit', 'editconf') and not cmd['inject']               # a different source tree is on disk now
         for part in ('cmdline', 'intro') + (() if src_changed else ('configure', 'augments')):
             if res['pobs'][part] != prev['pobs'][part]:
                 moved.append(part)
@@ -812,7 +826,7 @@ def judge(m, prev, cmd, res, hist, taint=()):
     if res['pobs']['cmdline'] != m2['cmd']:
         V.append(('C08:cmdline-record:' + kind, 'cmd_line.txt records %r, the model %r' % (res['pobs']['cmdline'], m2['cmd'])))
     # facts for the anti-vacuity counters: which clauses of the property this transition exercised (and passed)
-    if cmd['kind'] in ('edit', 'reconfigure') and m['conf'] != m2['conf']:
+    if cmd['kind'] in ('edit', 'reconfigure', 'editconf') and m['conf'] != m2['conf']:
         old, new = VARIANTS[m['conf']], VARIANTS[m2['conf']]
         for k in new:
             if k in old and old[k][2] != new[k][2] and ('top.' + k) not in bad:
@@ -823,7 +837,7 @@ def judge(m, prev, cmd, res, hist, taint=()):
                 J['facts'].append('default-changed-value-kept')
         if any(k not in new for k in old):
             J['facts'].append('option-removed')
-    if cmd['kind'] in ('edit', 'reconfigure') and m['subconf'] != m2['subconf']:
+    if cmd['kind'] in ('edit', 'reconfigure', 'editconf') and m['subconf'] != m2['subconf']:
         old, new = sub_decl(m['subconf']), sub_decl(m2['subconf'])
         for k in new:
             if ('sub.' + k) in bad:
@@ -934,7 +948,7 @@ def main():
         jobs = 1
         ck.assume('mount namespaces unavailable: transitions executed serially at the fixed path')
     depth = ck.q(3, 5)
-    max_expand = ck.q(190, 1800)            # count-based cap on expanded states (deterministic); frontier reported
+    max_expand = ck.q(176, 1800)            # count-based cap on expanded states (deterministic); frontier reported
     tier_letter = 't' if ck.thorough else 'q'
     alphabet = [c['name'] for c in ALPHABET if tier_letter in c['tiers']]
 
@@ -1090,7 +1104,8 @@ def main():
         ck.require(facts.get('failed-unmoved', 0) > 0, 'no injected failure was observed to fail and leave the state alone')
         ck.require('postconf-script' in fail_classes, 'late failure (after coredata.dat was written) never happened')
         ck.require({'invalid-value', 'error()', 'option-file-syntax'} <= fail_classes, 'an injected failure class never failed: %r' % sorted(fail_classes))
-        ck.require({'ok:wipe', 'ok:edit', 'ok:configure', 'ok:reconfigure', 'ok:setup'} <= edge_classes, 'edge classes %r' % sorted(edge_classes))
+        ck.require({'ok:wipe', 'ok:edit', 'ok:configure', 'ok:reconfigure', 'ok:setup'} | ({'ok:editconf'} if ck.thorough else set()) <= edge_classes,
+                   'edge classes %r' % sorted(edge_classes))
         for f in ('choices-fallback', 'choices-kept', 'option-added', 'option-removed', 'default-changed-value-kept', 'override-dropped',
                   'wipe-same', 'late-subproject-got-earlier-value'):
             ck.require(facts.get(f, 0) > 0, 'clause never exercised: ' + f)
@@ -1102,7 +1117,7 @@ def main():
         ck.require(n_diff > 0, 'differential oracle never compared two histories')
         # the subproject's option file: every clause the tier's alphabet can reach was exercised (and agreed with the model)
         for f in ('sub-choices-own-value-kept', 'sub-choices-own-value-fallback', 'sub-choices-changed-while-yielding',
-                  'sub-option-removed') + (('sub-option-added', 'sub-default-changed-value-kept') if ck.thorough else ()):
+                  ) + (('sub-option-added', 'sub-option-removed', 'sub-default-changed-value-kept') if ck.thorough else ()):
             ck.require(facts.get(f, 0) > 0, 'clause never exercised (option file of the subproject): ' + f)
         ck.require(sum(1 for s in states.values() if s['m']['subconf'] != 'base' and s['m']['over'].get('c')) > 0,
                    'no state with an edited option file of the subproject and an own value of its yielding combo')
@@ -1130,7 +1145,7 @@ def main():
     ck.finish(states=len(states), transitions=n_trans, traces_validated_against_impl=n_trans,
               skipped_unspecified=n_unspec, distinct_edge_classes=len(edge_classes),
               rule='BFS over all command histories <= %d over %d commands from a fresh `meson setup`; product states merged on '
-                   '(model state, introspected/configure-listed values, augments, cmd_line.txt, option-file variant, get_option() '
+                   '(model state, introspected/configure-listed values, augments, cmd_line.txt, variants of the two option files, get_option() '
                    'observation); every transition is one distinct history whose every step was executed by the real CLI code and '
                    'compared with the model; expansion capped at %d states in BFS order' % (depth, len(alphabet), max_expand),
               exhaustive=not capped, frontier_at_bound=frontier_left)
